@@ -3,7 +3,7 @@
    from ISO 32000-1 Algorithms 2-7 and ISO 32000-2 Algorithms 2.A, 2.B, 8-13); shared primitives: C24/Prims.v. *)
 From Coq Require Import NArith ZArith List Bool.
 Import ListNotations.
-From PV Require Import C24.Prims C24.Model C24.Spec C24.Proofs.
+From PV Require Import C24.Prims C24.Model C24.Spec C24.Proofs C24.ProofsAES.
 Open Scope N_scope.
 
 (* R 2,3,4 — for every password (any length, any bytes), O entry, P, file identifier, key length, EncryptMetadata: *)
@@ -47,3 +47,120 @@ Theorem C24_accepts_iff_spec_owner : forall ownerpw userpw e, rev234 (eR e) ->
   = alg7 ownerpw userpw (eO e) (eU e) (eP e) (eID e) (eR e) (eL e) (eEmd e).
 Proof. exact validate_owner_eq. Qed.
 Print Assumptions C24_accepts_iff_spec_owner.
+
+(* R 5,6 — SHA-256/384/512, AES (CBC without padding, single-block ECB), the reader's password preparation
+   (processInput) and SASLprep are parameters; prims_ok: the digests have their lengths and AES-CBC outputs bytes. *)
+
+(* hashRev6 is Algorithm 2.B (same rounds, same stopping rule, for every input), and the 300 rounds of fuel both
+   models carry are never exhausted: Algorithm 2.B stops at round 287 at the latest *)
+Theorem C24_code_eq_spec_hash2B : forall sha256 sha384 sha512 cbc, prims_ok sha256 sha384 sha512 cbc ->
+  forall input pw u,
+  c_hashRev6 sha256 sha384 sha512 cbc input pw u = alg2B sha256 sha384 sha512 cbc input pw u
+  /\ alg2B sha256 sha384 sha512 cbc input pw u <> None.
+Proof.
+  intros sha256 sha384 sha512 cbc (H1 & H2 & H3 & H4) input pw u. split.
+  - eapply hashRev6_eq; section_args.
+  - eapply alg2B_total; section_args.
+Qed.
+Print Assumptions C24_code_eq_spec_hash2B.
+
+(* pdfcpu accepts a user password exactly when Algorithm 11 does, and recovers the same file key (2.A step e).
+   FULL STATEMENT: without the hypothesis prep pw = saslprep pw.  It does not hold for pdfcpu's processInput (a PRECIS
+   identifier profile, not SASLprep): C24_accepts_iff_spec_user_aes_refuted, finding aes256-password-prep-asymmetric. *)
+Theorem C24_accepts_iff_spec_user_aes_partial : forall sha256 sha384 sha512 cbc_enc cbc_dec prep saslprep,
+  prims_ok sha256 sha384 sha512 cbc_enc -> forall pw e,
+  prep pw = saslprep pw -> (eR e = 6 -> length (eUE e) = 32%nat) ->
+  c_validate_user_aes sha256 sha384 sha512 cbc_enc cbc_dec prep pw e
+  = spec_validate_user sha256 sha384 sha512 cbc_enc cbc_dec saslprep (eR e) pw (eU e) (eUE e).
+Proof.
+  intros sha256 sha384 sha512 cbc_enc cbc_dec prep saslprep (H1 & H2 & H3 & H4) pw e. intros Hp Hl. eapply validate_user_aes_eq; section_args.
+Qed.
+Print Assumptions C24_accepts_iff_spec_user_aes_partial.
+
+(* ... an owner password exactly when Algorithm 12 does (2.A step d) - for non-empty owner passwords.
+   FULL STATEMENT: also for the empty owner password and without prep pw = saslprep pw; both fail
+   (C24_accepts_iff_spec_owner_aes_empty_refuted: validateOwnerPasswordAES256* return false for an empty password
+   without looking at the document). *)
+Theorem C24_accepts_iff_spec_owner_aes_partial : forall sha256 sha384 sha512 cbc_enc cbc_dec prep saslprep,
+  prims_ok sha256 sha384 sha512 cbc_enc -> forall pw e,
+  pw <> [] -> prep pw = saslprep pw ->
+  c_validate_owner_aes sha256 sha384 sha512 cbc_enc cbc_dec prep pw e
+  = spec_validate_owner sha256 sha384 sha512 cbc_enc cbc_dec saslprep (eR e) pw (eO e) (eOE e) (eU e).
+Proof.
+  intros sha256 sha384 sha512 cbc_enc cbc_dec prep saslprep (H1 & H2 & H3 & H4) pw e. intros Hne Hp. eapply validate_owner_aes_eq; section_args.
+Qed.
+Print Assumptions C24_accepts_iff_spec_owner_aes_partial.
+
+(* the U, O, UE, OE entries pdfcpu writes (calcOAndUAES256 / Rev6, random salts and file key made explicit) are those of
+   Algorithms 8 and 9 - for passwords SASLprep leaves alone and that are at most 127 bytes long.
+   FULL STATEMENT: for every password.  It fails because the writer hashes the raw bytes: no SASLprep, no truncation
+   (C24_code_eq_spec_OU_aes_refuted; findings aes256-password-prep-asymmetric,
+   aes256-password-over-127-bytes-not-truncated-on-write). *)
+Theorem C24_code_eq_spec_OU_aes_partial : forall sha256 sha384 sha512 cbc_enc saslprep,
+  prims_ok sha256 sha384 sha512 cbc_enc -> forall r upw opw vsu ksu vso kso fk,
+  prepared saslprep upw -> prepared saslprep opw ->
+  length vsu = 8%nat -> length ksu = 8%nat -> length vso = 8%nat -> length kso = 8%nat ->
+  c_calc_ou_aes sha256 sha384 sha512 cbc_enc r upw opw (vsu ++ ksu) (vso ++ kso) fk
+  = spec_calc sha256 sha384 sha512 cbc_enc saslprep r upw opw vsu ksu vso kso fk.
+Proof.
+  intros sha256 sha384 sha512 cbc_enc saslprep (H1 & H2 & H3 & H4) r upw opw vsu ksu vso kso fk. intros. eapply calc_eq; section_args.
+Qed.
+Print Assumptions C24_code_eq_spec_OU_aes_partial.
+
+(* the Perms entry pdfcpu writes is the one of Algorithm 10 (with zero bytes as the four "random" bytes), and
+   validatePermissions accepts exactly when Algorithm 13 does - for every P that fits in 32 bits *)
+Theorem C24_code_eq_spec_perms : forall (ecb_enc ecb_dec : bytes -> bytes -> bytes) p emd fk e,
+  (p_in_range p -> c_write_perms ecb_enc p emd fk = Some (alg10 ecb_enc p emd (zeros 4) fk)) /\
+  (p_in_range (eP e) ->
+     (c_validate_perms ecb_dec e fk = VOk <-> alg13 ecb_dec (ePerms e) fk (eP e) (eEmd e) = true)
+     /\ c_validate_perms ecb_dec e fk <> VErr).
+Proof.
+  intros ecb_enc ecb_dec p emd fk e. split; intros Hp; [eapply write_perms_eq|eapply validate_perms_eq]; section_args.
+Qed.
+Print Assumptions C24_code_eq_spec_perms.
+
+(* the hypotheses of the _partial theorems cannot be dropped (whatever the primitives: shown with toy primitives that
+   satisfy prims_ok): *)
+Theorem C24_code_eq_spec_OU_aes_refuted : exists sha256 sha384 sha512 cbc_enc saslprep upw opw vsu ksu vso kso fk,
+  prims_ok sha256 sha384 sha512 cbc_enc /\ saslprep upw = Some upw /\ prepared saslprep opw /\
+  c_calc_ou_aes sha256 sha384 sha512 cbc_enc 5 upw opw (vsu ++ ksu) (vso ++ kso) fk
+  <> spec_calc sha256 sha384 sha512 cbc_enc saslprep 5 upw opw vsu ksu vso kso fk.
+Proof.
+  exists (toy_hash 31), (toy_hash 47), (toy_hash 63), toy_cbc, (fun x => Some x), pw128, [111], salt_a, salt_b, salt_a, salt_b, (repeat 7 32).
+  split; [exact toy_prims_ok|]. split; [reflexivity|]. split; [split; [reflexivity|cbn; repeat constructor]|].
+  exact calc_truncation_witness.
+Qed.
+Print Assumptions C24_code_eq_spec_OU_aes_refuted.
+
+Theorem C24_accepts_iff_spec_user_aes_refuted : exists sha256 sha384 sha512 cbc_enc cbc_dec prep saslprep pw e,
+  prims_ok sha256 sha384 sha512 cbc_enc /\ saslprep pw = Some pw /\
+  fst (spec_validate_user sha256 sha384 sha512 cbc_enc cbc_dec saslprep (eR e) pw (eU e) (eUE e)) = VOk /\
+  fst (c_validate_user_aes sha256 sha384 sha512 cbc_enc cbc_dec prep pw e) = VErr.
+Proof.
+  exists (toy_hash 31), (toy_hash 47), (toy_hash 63), toy_cbc, toy_cbc,
+    (fun x => if existsb (N.eqb 32) x then None else Some x), (fun x => Some x),
+    [109; 121; 32; 112; 97; 115; 115], (toy_enc_user [109; 121; 32; 112; 97; 115; 115]).
+  split; [exact toy_prims_ok|]. exact prep_witness.
+Qed.
+Print Assumptions C24_accepts_iff_spec_user_aes_refuted.
+
+Theorem C24_accepts_iff_spec_owner_aes_empty_refuted : exists sha256 sha384 sha512 cbc_enc cbc_dec saslprep e,
+  prims_ok sha256 sha384 sha512 cbc_enc /\ saslprep [] = Some [] /\
+  fst (spec_validate_owner sha256 sha384 sha512 cbc_enc cbc_dec saslprep (eR e) [] (eO e) (eOE e) (eU e)) = VOk /\
+  fst (c_validate_owner_aes sha256 sha384 sha512 cbc_enc cbc_dec saslprep [] e) = VNo.
+Proof.
+  exists (toy_hash 31), (toy_hash 47), (toy_hash 63), toy_cbc, toy_cbc, (fun x => Some x), toy_enc_owner_empty.
+  split; [exact toy_prims_ok|]. split; [reflexivity|]. exact empty_owner_witness.
+Qed.
+Print Assumptions C24_accepts_iff_spec_owner_aes_empty_refuted.
+
+(* non-vacuity: the two models compute, and agree, on a concrete R4 / AES-128 dictionary; the right passwords are accepted *)
+Example C24_nonvacuous :
+  let upw := [117; 115; 114] in let opw := [111; 119; 110] in
+  let o := c_o opw upw 4 128 in
+  let e0 := mkEnc o [] [] [] [] 128 (-3901)%Z 4 true [1; 2; 3; 4; 5; 6; 7; 8; 9; 10; 11; 12; 13; 14; 15; 16] in
+  let e := mkEnc o (fst (c_u upw e0)) [] [] [] 128 (-3901)%Z 4 true (eID e0) in
+  rev234 (eR e) /\ o = alg3 opw upw 4 128 /\
+  fst (c_validate_user_rc4 upw e) = true /\ fst (c_validate_owner_rc4 opw [] e) = true /\
+  fst (c_validate_user_rc4 opw e) = false /\ fst (c_validate_owner_rc4 upw [] e) = false.
+Proof. vm_compute. repeat split; auto. Qed.
